@@ -246,3 +246,195 @@ def c18(tier):
 
 
 REGISTRY["C18"] = c18
+
+
+# ---------------------------------------------------------------------------------------------
+# C11: comments, layout and listing options never affect behaviour
+# ---------------------------------------------------------------------------------------------
+DECO_TEXT = {
+    "space": " ", "tab": "\t", "newline": "\n", "crlf": "\r\n", "blank2": "\n \n", "splice": "\\\n",
+    "blk_plain": "/* note */", "blk_dq": '/* " */', "blk_sq": "/* ' */", "blk_slsl": "/* // not a line comment */", "blk_open": "/* /* still one comment */",
+    "blk_define": "/* #define X 1 */", "blk_url": "/* http://x/*y */", "blk_stars": "/*** boxed ***/", "blk_multi": "/* first\n * second\n */", "blk_tight": "/*c*/",
+    "line_plain": "// note\n", "line_dq": '// "quoted\n', "line_blk": "// /* not a block\n", "line_end": "// */ stray\n", "line_define": "//#define X 1\n",
+}
+_TOK11 = re.compile(r'"(?:[^"\\\n]|\\.)*"|\'(?:[^\'\\\n]|\\.)*\'|[A-Za-z_][A-Za-z0-9_]*|0x[0-9a-fA-F]+|\d+|<<=|>>=|\+\+|--|&&|\|\||<<|>>|<=|>=|==|!=|\+=|-=|&=|\|=|\^=|\S')
+
+
+def gaps_of(src):
+    """positions between two adjacent tokens, outside preprocessor lines"""
+    out = []
+    pos = 0
+    for line in src.split("\n"):
+        if not line.lstrip().startswith("#"):
+            toks = [(m.start() + pos, m.end() + pos) for m in _TOK11.finditer(line)]
+            for (a, b), (c, d) in zip(toks, toks[1:]):
+                out.append((b, c))
+        pos += len(line) + 1
+    return out
+
+
+def decorate(src, gap, deco, tight=False):
+    b, c = gap
+    text = DECO_TEXT[deco]
+    if tight:
+        return src[:b] + text + src[c:]             # the decoration replaces the layout between the two tokens
+    return src[:b] + src[b:c] + " " + text + " " + src[c:] if not text.endswith("\n") else src[:b] + " " + text + src[b:c] + src[c:]
+
+
+def code_view(o):
+    """what must not change: declared variables and functions, and the emitted lines (comments and removed slots apart)"""
+    vs = [(v["name"], v["type"], v["mem"], v["size"], v["const"], v["signed"], json.dumps(v["def"], sort_keys=True)) for v in o["vars"]]
+    fs = [(f["name"], f["inline"], f["bank"], [(l["k"], l.get("mn"), l.get("op"), l.get("name"), l.get("text")) for l in (f.get("lines") or []) if l["k"] in ("i", "l", "a")]) for f in o["funcs"]]
+    return vs, fs
+
+
+def c11(tier):
+    t0 = time.time()
+    pid = "C11"
+    verdict = common.Verdict(pid)
+    progs, _ = checks_refine.sample_programs("quick", fams=["F1a", "F1e", "F2a", "F2c", "F3a", "F3c", "F4", "F5a", "F5b", "F7a"], name="c11", scale=0.02 if tier == "quick" else 0.06)
+    corpus = [vocab.source(p["body"], sorted(render.calls_in(p["body"]))) for p in progs]
+    from . import checks_misc
+    extra = [s for s in checks_misc.repo_test_inputs() if "#include" not in s and "##" not in s]
+    rnd = random.Random(common.seed())
+    corpus += rnd.sample(extra, min(len(extra), 25 if tier == "quick" else 120))
+    # keep the programs the compiler accepts as they are
+    obs0 = common.run_harness("compile", [dict(id=i, src=s, variants=[dict(name="O1", args=["-O1"])]) for i, s in enumerate(corpus)], "c11a")
+    corpus = [s for s, ob in zip(corpus, obs0) if ob and ob[0].get("status") == "ok"]
+    d = common.workdir("gen_c11")
+    cfg = os.path.join(d, "GenDecor.cfg")
+    ngaps = 6 if tier == "quick" else 16
+    open(cfg, "w").write("CONSTANTS NProgs = %d\n NGaps = %d\nINIT Init\nNEXT Next\nINVARIANT Neutral\nINVARIANT Emit\nCHECK_DEADLOCK FALSE\n" % (len(corpus), ngaps))
+    res = common.run_tlc("GenDecor", cfg=cfg, name="gen_c11", tags={"CASE"}, workers=4, heap="4g")
+    if res.violated_invariant:
+        raise common.ToolError("decoration menu is not token-neutral by Lexer.tla: " + res.raw_tail[-800:])
+    common.require_ok(res, "GenDecor")
+    gen = sorted([o for (_, o) in res.lines], key=lambda o: (o["p"], o["g"], o["d"]))
+    cases = []
+    for o in gen:
+        src = corpus[o["p"] - 1]
+        gs = gaps_of(src)
+        if not gs:
+            continue
+        gap = gs[(o["g"] * 7919 + o["p"] * 31) % len(gs)]
+        for tight in ((False, True) if o["d"].startswith("blk") else (False,)):
+            if tight and src[gap[0]:gap[1]] == "":
+                continue        # the two tokens touch: nothing to replace
+            dec = decorate(src, gap, o["d"], tight)
+            cases.append(dict(id=len(cases), src=src, _dec=dec, _deco=o["d"] + ("/tight" if tight else ""), _gap=src[max(0, gap[0] - 12):gap[1] + 12],
+                              variants=[dict(name="plain-O1", args=["-O1"], src=src), dict(name="deco-O1", args=["-O1"], src=dec),
+                                        dict(name="deco-O0", args=["-O0"], src=dec), dict(name="plain-O0", args=["-O0"], src=src)]))
+    # listing / warning options on the undecorated programs
+    for s in corpus:
+        cases.append(dict(id=len(cases), src=s, _dec=s, _deco="options", _gap="",
+                          variants=[dict(name="plain-O1", args=["-O1"], src=s), dict(name="deco-O1", args=["-O1", "--insert-code"], src=s),
+                                    dict(name="deco-O0", args=["-O0", "-W", "all"], src=s), dict(name="plain-O0", args=["-O0"], src=s)]))
+    obs = common.run_harness("compile", [{k: v for k, v in c.items() if not k.startswith("_")} for c in cases], "c11")
+    kf = {}
+    for fd in verdict.findings:
+        for k in fd.get("cases", []):
+            kf[k] = fd["id"]
+    same = differ_text = 0
+    fallback = []
+    for c, ob in zip(cases, obs):
+        by = {o.get("variant"): o for o in ob}
+        for lvl in ("O1", "O0"):
+            a, b = by.get("plain-" + lvl), by.get("deco-" + lvl)
+            if not a or not b or a.get("status") != "ok":
+                continue
+            problem = None
+            if b.get("status") != "ok":
+                problem = "decorated program is %s: %s" % (b.get("status"), json.dumps(b.get("err", b.get("panic")))[:120])
+            else:
+                va, fa = code_view(a)
+                vb, fb = code_view(b)
+                if va != vb:
+                    problem = "declared variables differ"
+                elif [f[:3] for f in fa] != [f[:3] for f in fb]:
+                    problem = "declared functions differ"
+                elif fa != fb:
+                    differ_text += 1
+                    fallback.append((c, lvl, a, b))
+                    continue
+                else:
+                    same += 1
+                    continue
+            key = "deco:" + c["_deco"]
+            if key in kf:
+                verdict.attribute(kf[key])
+                continue
+            verdict.violation("%s between `%s` at -%s: %s" % (c["_deco"], c["_gap"].replace("\n", "\\n"), lvl, problem),
+                              dict(property=pid, decoration=c["_deco"], where=c["_gap"], level=lvl, problem=problem, plain=c["src"], decorated=c["_dec"]))
+    # emitted text differs (e.g. a listing comment between a JMP and its label): decide by execution
+    tcases = []
+    for n, (c, lvl, a, b) in enumerate(fallback):
+        try:
+            addr, regs, rom, consts = link.layout(a["vars"])
+            code_a, ea, _ = link.link(a["funcs"], addr)
+            code_b, eb, _ = link.link(b["funcs"], addr)
+        except link.LinkError as e:
+            verdict.violation("emitted code differs and does not link: %s" % e, dict(property=pid, decoration=c["_deco"], plain=c["src"], decorated=c["_dec"], error=str(e)))
+            continue
+        vt = {}
+        for v in a["vars"]:
+            nme = v["name"]
+            if nme not in addr or v["mem"] == "Dummy" or (v["def"] is not None and "value" in v["def"]):
+                continue
+            t = v["type"]
+            if v["size"] > 1:
+                vt[nme] = dict(kind="a", w=8 if t == "CharPtr" else 16, sg=False, n=v["size"], addr=addr[nme], io=False)
+            else:
+                vt[nme] = dict(kind="p" if t in ("CharPtr", "CharPtrPtr", "ShortPtr") else "s", w=16 if t == "Short" else 8, sg=False, n=1, addr=addr[nme], io=False)
+        vt["X"] = dict(kind="s", w=8, sg=False, n=1, addr=-1, io=False)
+        vt["Y"] = dict(kind="s", w=8, sg=False, n=1, addr=-2, io=False)
+        inputs = []
+        r2 = random.Random(n)
+        for _ in range(6):
+            inp = {}
+            for nme, dd in vt.items():
+                if dd["kind"] == "a":
+                    inp[nme] = [(rom.get(dd["addr"] + i, r2.choice([0, 1, 3, 128, 255])) if dd["w"] == 8 else r2.choice([0, 1, 255, 256, 65535])) for i in range(dd["n"])]
+                else:
+                    inp[nme] = r2.choice([0, 1, 2, 127, 128, 255]) if dd["w"] == 8 and dd["kind"] == "s" else r2.choice([0, 1, 255, 256, 40000])
+            inp["X"], inp["Y"] = r2.choice([0, 1, 2]), r2.choice([0, 1, 2])
+            inputs.append(dict(inp=inp, ex={}, bound=3000))
+        tcases.append(dict(id="fb%d" % n, vt=vt, fs={}, body=[], fuel=1, obs=[x for x in vt if x not in ("X", "Y") and not (a_rom(vt[x], rom))], regions=regs,
+                           variants=[dict(name="plain", code=code_a, entry=ea), dict(name="decorated", code=code_b, entry=eb)], tmp=link.TMP_ADDR, prefix=False, cycdiff=-1,
+                           sem=False, pair=True, inputs=inputs, _c=c, _lvl=lvl))
+    states = res.distinct
+    if tcases:
+        mms, cut, rres = refine.run_tcases("c11", tcases)
+        states += rres.distinct
+        byid = {t["id"]: t for t in tcases}
+        seen = set()
+        for m in mms:
+            if m["id"] in seen:
+                continue
+            seen.add(m["id"])
+            t = byid[m["id"]]
+            c = t["_c"]
+            key = "deco:" + c["_deco"]
+            if key in kf:
+                verdict.attribute(kf[key])
+                continue
+            verdict.violation("%s changes the behaviour of the emitted code at -%s" % (c["_deco"], t["_lvl"]),
+                              dict(property=pid, decoration=c["_deco"], where=c["_gap"], plain=c["src"], decorated=c["_dec"], input=t["inputs"][m["k"] - 1]["inp"], got=m["got"], want=m["want"]))
+    if same < 200:
+        raise common.ToolError("vacuous: only %d comparisons" % same)
+    cov = dict(states=states, transitions=res.generated, traces_validated_against_impl=same + differ_text,
+               samples=[dict(decoration=c["_deco"], decorated=c["_dec"]) for c in cases[5:8]],
+               corpus_programs=len(corpus), decorated_programs=len(cases), comparisons_textually_equal=same, comparisons_decided_by_execution=differ_text,
+               decorations=sorted(DECO_TEXT), attributed_to_known_findings=verdict.known, exhaustive=False,
+               explanation="GenDecor.tla enumerates (program, gap between two adjacent tokens, decoration) and checks with Lexer.tla that every decoration is token-neutral; "
+                           "the decorated and the plain program are compiled at -O0 and -O1 (plus --insert-code and -W all on the plain text): declared variables and functions and the "
+                           "emitted instruction/label lines must be equal; where the emitted text differs, Refine.tla decides by executing both on the 6502 model.")
+    common.write_evidence(pid, tier, "model_checking", cov, time.time() - t0, len(verdict.violations), ["gaps inside preprocessor directive lines are not decorated"])
+    return verdict.finish(max_print=12)
+
+
+def a_rom(d, rom):
+    return d["addr"] in rom
+
+
+from . import link
+REGISTRY["C11"] = c11
